@@ -1,11 +1,8 @@
 (* Dispatch.v -- one command in, one observation out.  The same function is
    extracted to OCaml (model driver) and can be evaluated inside Coq
    (extraction cross-check).  Commands mirror harness/src/bin/impl_driver.rs. *)
-From MsiModel Require Import Base Sexp Timestamp Language ExprCmd ColumnCmd CodePage.
+From MsiModel Require Import Base Sexp Timestamp Language ExprCmd ColumnCmd CodePage PackageCmd.
 Open Scope string_scope.
-
-Record state := { st_dummy : unit }.
-Definition init_state : state := {| st_dummy := tt |}.
 
 Definition pure_cmd (name : string) (args : list sx) : option sx :=
   match name, args with
@@ -48,7 +45,11 @@ Definition dispatch (st : state) (c : sx) : state * sx :=
           | None =>
               match column_cmd name args with
               | Some o => (st, o)
-              | None => (st, bad_cmd)
+              | None =>
+                  match pkg_cmd st name args with
+                  | Some r => r
+                  | None => (st, bad_cmd)
+                  end
               end
           end
       end
